@@ -74,7 +74,10 @@ func (k Keeper) UpgradeClient(
 	}
 
 	k.SetClientState(ctx, chainName, newClientState)
-	k.SetClientConsensusState(ctx, chainName, newClientState.GetLatestHeight(), newConsensusState)
+	// a TSS client has no consensus states (see CreateClient): its latest height is the zero height
+	if newConsensusState.ClientType() != exported.TSS {
+		k.SetClientConsensusState(ctx, chainName, newClientState.GetLatestHeight(), newConsensusState)
+	}
 
 	k.Logger(ctx).Info(
 		"client state upgraded",
@@ -130,7 +133,10 @@ func (k Keeper) ToggleClient(
 	if err := newClientState.Initialize(ctx, k.cdc, k.ClientStore(ctx, chainName), newConsensusState); err != nil {
 		return err
 	}
-	k.SetClientConsensusState(ctx, chainName, newClientState.GetLatestHeight(), newConsensusState)
+	// a TSS client has no consensus states (see CreateClient): its latest height is the zero height
+	if newConsensusState.ClientType() != exported.TSS {
+		k.SetClientConsensusState(ctx, chainName, newClientState.GetLatestHeight(), newConsensusState)
+	}
 
 	k.Logger(ctx).Info(
 		"client state toggled",
